@@ -15,16 +15,14 @@ Fixpoint popcount_aux (n : nat) (b : Z) : Z :=
 Definition odd_parity (b : Z) : bool :=
   (0 <=? b) && (b <? 256) && (popcount_aux 8 b mod 2 =? 1).
 
-(* CEA-608 basic North American character set (7-bit codes 0x20..0x7e; 0x7f is the solid block, which no
-   text of this property contains).  ASCII except for nine positions. *)
+(* CEA-608 basic North American character set (7-bit codes 0x20..0x7f).  ASCII except for ten positions; 0x7f is
+   the solid block U+2588 (pycaption's writer table does not contain it; a table that did would be accepted). *)
 Definition cea_basic (b7 : Z) : option Z :=
-  if (b7 <? 32) || (126 <? b7) then None else
+  if (b7 <? 32) || (127 <? b7) then None else
   Some (match b7 with
         | 42 => 225 | 92 => 233 | 94 => 237 | 95 => 243 | 96 => 250
-        | 123 => 231 | 124 => 247 | 125 => 209 | 126 => 241
+        | 123 => 231 | 124 => 247 | 125 => 209 | 126 => 241 | 127 => 9608
         | _ => b7 end).
-Definition in_basic_set (c : Z) : bool := existsb (fun b => match cea_basic b with Some c' => c' =? c | None => false end)
-  (map Z.of_nat (seq 32 95)).
 
 (* Preamble address code, data channel 1: first byte 0x10..0x17, second byte 0x40..0x7f (parity stripped).
    Row by (first byte, bit 5 of the second byte); 0x10 addresses row 11 only with a second byte below 0x60. *)
@@ -43,7 +41,7 @@ Definition pac_row (hi lo : Z) : option Z :=
   | 20 => Some (if second then 15 else 14)
   | _ => None
   end.
-(* column / attribute part: 0x40|0x60 + 0x10 + 2*(indent/4): the writer is expected to address column 0 *)
+(* column / attribute part: 0x40|0x60 + 0x10 + 2*(indent/4); a PAC without the indent bit addresses column 0 *)
 Definition pac_indent (lo : Z) : option Z :=
   let l := (lo mod 128) mod 32 in if 16 <=? l then Some ((l - 16) / 2 * 4) else Some 0.
 
@@ -92,13 +90,29 @@ Definition parse_line (l : str) : option (Z * list (Z * Z)) :=
 Definition scenarist_header : str := lit "Scenarist_SCC V1.0".
 
 (* header line, then (blank lines ignored) timecoded lines *)
-Definition parse_document (doc : str) : option (list (Z * list (Z * Z))) :=
+Definition parse_exact (doc : str) : option (list (Z * list (Z * Z))) :=
   match split_ch 10 doc with
   | h :: rest =>
       if str_eqb h scenarist_header
       then opt_map parse_line (filter (fun l => match l with [] => false | _ => true end) rest)
       else None
   | [] => None
+  end.
+(* The statement does not fix the line terminator or trailing blanks: a document is also accepted when it parses
+   after CR characters and blanks at the END of its lines are dropped (CRLF files, a blank after the last word). *)
+Fixpoint drop_trailing (s : str) : str :=
+  match s with
+  | [] => []
+  | c :: t => match drop_trailing t with
+              | [] => if (c =? 13) || (c =? 32) then [] else [c]
+              | t' => c :: t'
+              end
+  end.
+Definition normalize_doc (doc : str) : str := join [10] (map drop_trailing (split_ch 10 doc)).
+Definition parse_document (doc : str) : option (list (Z * list (Z * Z))) :=
+  match parse_exact doc with
+  | Some lines => Some lines
+  | None => parse_exact (normalize_doc doc)
   end.
 
 (* ---- pop-on load decoding ------------------------------------------------------------------ *)
@@ -109,7 +123,8 @@ Definition EDM := (148, 44).   Definition EOC := (148, 47).
 Definition is_control (w : Z * Z) : bool := let h := fst w mod 128 in (16 <=? h) && (h <? 32).
 
 (* rows of a load body: a PAC opens a row (a control code equal to the word just before it is the redundant
-   copy and is ignored); other words carry two basic characters, 0x00 (0x80 with parity) being the filler.
+   copy and is ignored) - an indented PAC starts the row with that many blanks; other words carry two basic
+   characters, 0x00 (0x80 with parity) being the filler.
    Any other control code, or a character outside the basic set, is not a body this property describes. *)
 Fixpoint decode_body (ws : list (Z * Z)) (prev : option (Z * Z)) (rows : list (Z * str)) : option (list (Z * str)) :=
   match ws with
@@ -118,7 +133,7 @@ Fixpoint decode_body (ws : list (Z * Z)) (prev : option (Z * Z)) (rows : list (Z
       if is_control w then
         if match prev with Some p => w_eqb p w | None => false end then decode_body t None rows
         else match pac_row (fst w) (snd w), pac_indent (snd w) with
-             | Some r, Some 0 => decode_body t (Some w) ((r, []) :: rows)
+             | Some r, Some k => decode_body t (Some w) ((r, repeat 32 (Z.to_nat k)) :: rows)
              | _, _ => None
              end
       else
@@ -133,8 +148,8 @@ Fixpoint decode_body (ws : list (Z * Z)) (prev : option (Z * Z)) (rows : list (Z
         end
   end.
 
-(* a caption line: ENM ENM RCL RCL body EDM EDM EOC EOC; returns the body and the index of the first EOC *)
-Definition strip_load (ws : list (Z * Z)) : option (list (Z * Z)) :=
+(* a caption line as pycaption writes it: ENM ENM RCL RCL body EDM EDM EOC EOC; returns the body *)
+Definition strip_exact (ws : list (Z * Z)) : option (list (Z * Z)) :=
   match ws with
   | a :: b :: c :: d :: rest =>
       if w_eqb a ENM && w_eqb b ENM && w_eqb c RCL && w_eqb d RCL then
@@ -146,6 +161,26 @@ Definition strip_load (ws : list (Z * Z)) : option (list (Z * Z)) :=
       else None
   | _ => None
   end.
+(* The statement asks for a pop-on load, not for this exact framing: any line is accepted that selects pop-on mode
+   (leading ENM / RCL words in any order and number, at least one RCL), then carries the body, then - after any
+   number of EDM words - ends in ONE End-Of-Caption (single or doubled). *)
+Fixpoint drop_while (p : Z * Z -> bool) (ws : list (Z * Z)) : list (Z * Z) :=
+  match ws with [] => [] | w :: t => if p w then drop_while p t else ws end.
+Fixpoint take_while (p : Z * Z -> bool) (ws : list (Z * Z)) : list (Z * Z) :=
+  match ws with [] => [] | w :: t => if p w then w :: take_while p t else [] end.
+Definition strip_relaxed (ws : list (Z * Z)) : option (list (Z * Z)) :=
+  let lead := take_while (fun w => w_eqb w ENM || w_eqb w RCL) ws in
+  let rest := drop_while (fun w => w_eqb w ENM || w_eqb w RCL) ws in
+  if negb (existsb (fun w => w_eqb w RCL) lead) then None else
+  match rev rest with
+  | z :: r1 =>
+      if negb (w_eqb z EOC) then None else
+      let r2 := match r1 with y :: r => if w_eqb y EOC then r else r1 | [] => r1 end in
+      Some (rev (drop_while (fun w => w_eqb w EDM) r2))
+  | [] => None
+  end.
+Definition strip_load (ws : list (Z * Z)) : option (list (Z * Z)) :=
+  match strip_exact ws with Some b => Some b | None => strip_relaxed ws end.
 Definition is_clear_line (ws : list (Z * Z)) : bool :=
   match ws with [a; b] => w_eqb a EDM && w_eqb b EDM | _ => false end.
 
@@ -191,6 +226,9 @@ Fixpoint refines (width : nat) (ws pieces : list str) : bool :=
       end
   end.
 
+Fixpoint rows_distinct (l : list Z) : bool :=
+  match l with [] => true | a :: t => negb (existsb (Z.eqb a) t) && rows_distinct t end.
+
 (* ---- the oracle ------------------------------------------------------------------------------ *)
 Record cue := mkCue { q_text : str; q_start : Q; q_end : Q }.
 
@@ -205,7 +243,7 @@ Fixpoint nondecreasing (l : list Z) : bool :=
 
 (* verdict codes: 0 ok; 1 not a Scenarist document of four-hex-digit words; 2 a byte without odd parity;
    3 not one load per caption; 4 a load whose body is not rows of basic characters addressed by PACs,
-   or a row outside 1..15; 5 a row longer than 32 columns; 6 text not preserved up to breaking at spaces;
+   a row outside 1..15, or a row addressed twice (its text would be overwritten); 5 a row longer than 32 columns; 6 text not preserved up to breaking at spaces;
    7 timecodes decrease; 8 a caption not visible within three frames of its start *)
 Definition check_load (c : cue) (line : Z * list (Z * Z)) : Z :=
   match strip_load (snd line) with
@@ -215,6 +253,7 @@ Definition check_load (c : cue) (line : Z * list (Z * Z)) : Z :=
       | None => 4
       | Some rows =>
           if negb (forallb (fun r => (1 <=? fst r) && (fst r <=? 15)) rows) then 4
+          else if negb (rows_distinct (map fst rows)) then 4
           else if negb (forallb (fun r => (length (snd r) <=? 32)%nat) rows) then 5
           else if negb (refines 32 (words (q_text c)) (flat_map (fun r => words (snd r)) rows)) then 6
           else match index_of EOC (snd line) 0 with
